@@ -12,12 +12,19 @@ import resource
 import sys
 
 
+def self_containing_list():
+    a = [1, 2]
+    a.append([3, a])
+    return a
+
+
 def cases(formulas):
     names = sorted(formulas.supported())
     makers = {
         'itertools.count()': lambda: itertools.count(),
         'a generator that never ends': lambda: (i for i in itertools.count()),
         'itertools.cycle([1, 2])': lambda: itertools.cycle([1, 2]),
+        'a list that contains itself': self_containing_list,
     }
     for name in names:
         for how, mk in makers.items():
